@@ -432,7 +432,7 @@ def c15(tier):
 @reg("C17")
 def c17(tier):
     from . import groups as G
-    run = P.Run("C17", tier, ["C17_"])
+    run = P.Run("C17", tier, ["C17_"], keep_obs=True)
     s = run.seed
     # Spec B with the Rerun action: C17 clauses model-checked, behaviours replayed into the real conductor
     run.add_mc((F.curated()[:16] if tier == "quick" else F.curated() + F.curated_retry()[:4] + F.random_family(3500 + s, 150, nmax=4)),
